@@ -295,6 +295,38 @@ def uac_complete(run, F):
 
 
 # ---------------------------------------------------------------------------------------------
+# R-UAC-START: an operation with a single child touches nothing after starting it
+@rule('R-UAC-START', ['C02', 'C01', 'C09'], floor=10)
+def uac_start(run, F):
+    """in start() of an operation class that starts exactly one child operation and takes part in no election (no atomic read-modify-write anywhere in the class), starting the child is the last thing that touches the operation: the child may complete synchronously inside unifex::start(), the consumer then destroys the operation, and any later member access (registering a stop callback, setting a flag) is a use after free"""
+    from ..facts import accesses, Graph
+    RMW = {'fetch_sub', 'fetch_add', 'fetch_or', 'fetch_and', 'exchange', 'compare_exchange_strong', 'compare_exchange_weak'}
+    n = 0
+    for f in F.funcs:
+        if not f.get('blocks') or f.get('lambda') or f['name'] != 'start' or not f.get('record'): continue
+        G = Graph(f)
+        starts = [m for m, e in G.ev.items() if e.get('k') == 'call' and e['callee'].get('qname') == 'unifex::start']
+        if len(starts) != 1: continue
+        if any(e['k'] == 'call' and e['callee'].get('name') in RMW and e['callee'].get('base') for g in F.by_record.get(f['record'], []) for _, _, e in events(g)): continue
+        n += 1
+        s0 = starts[0]
+        run.inst(site(f, G.line(s0)), 'nothing of the operation is touched after its only child was started', key=(f['qname'], G.line(s0)))
+        for x in sorted(G.reach([m for m, l in G.succ.get(s0, []) if l != 'exc'], skip_exc=True)):
+            ex = G.ev[x]
+            if (ex.get('macro') or '').startswith(('UNIFEX_ASSERT', 'assert')): continue
+            hit = None
+            for pth, rw in accesses(ex):
+                comps = [c for c in pth.split('.') if c]
+                named = [c for c in comps if not c.endswith('()')]
+                if comps and comps[0] == 'this' and len(named) >= 2: hit = pth; break
+            if hit:
+                run.violation(f['qname'], 'touch-after-start:' + last_field(hit), '%s:%s' % (f['file'], G.line(x)),
+                              '%s is accessed after the operation\'s only child was started at line %s: that child may complete inside start(), the consumer may then destroy this operation, and the access is a use after free' % (hit, G.line(s0)))
+                break
+    if n == 0: raise Broken('no single-child start() found')
+
+
+# ---------------------------------------------------------------------------------------------
 # R-UAC-HANDOFF: the side of an ownership hand-off that does not delete touches nothing
 DELETERS = {'deleter_', 'deallocate', 'destroy', 'unsafe_deallocate'}
 
